@@ -224,7 +224,7 @@ def regenerate_facts():
     if st != 0:
         if os.path.exists(tmp):
             os.remove(tmp)
-        return False, 'extract_facts_rng.py failed (%d): %s' % (st, (err or out).strip()[-600:])
+        return False, 'extract_facts_rng.py failed (%d): %s' % (st, (err or out).strip()[-600:]) + rng_hazard(hdr)
     new = open(tmp, encoding='utf8').read()
     old = open(dst, encoding='utf8').read() if os.path.exists(dst) else None
     if new != old:
@@ -232,6 +232,19 @@ def regenerate_facts():
     else:
         os.remove(tmp)
     return True, 'facts regenerated (%s)' % ('changed' if new != old else 'unchanged')
+
+
+def rng_hazard(hdr):
+    """The one thing about the generators that no execution on one compiler can settle: two draws passed to
+    `widen` in ONE call expression are indeterminately sequenced.  Returns a marker text if the header has it."""
+    try:
+        import extract_facts_rng as X
+        src = X.squeeze(X.strip_comments(open(hdr, encoding='utf8', errors='replace').read()))
+    except Exception as e:
+        return ' [HAZARD-SCAN-FAILED %r]' % (e,)
+    if re.search(r'widen\((?:[^;(),]|\([^;()]*\))*\(\)(?:[^;(),]|\([^;()]*\))*,(?:[^;(),]|\([^;()]*\))*\(\)', src):
+        return ' [UNSEQUENCED-DRAWS: a call of widen(…) has a function call in both arguments]'
+    return ''
 
 
 _lean_state = None
@@ -288,7 +301,13 @@ def proof_status(module):
         res['broken'].append('module %s does not exist' % module)
         return res
     if not st['facts_ok'] and 'Hfsm.Generated.RngFacts' in deps:
-        res['broken'].append('source facts could not be extracted: ' + st['facts_msg'])
+        # The translator recognises the generator code by strict templates; a harmless rewrite defeats it.
+        # That alone is not a violation: the tie then rests on the correspondence check alone (run at thorough
+        # depth by check.py), except for the one hazard execution cannot settle (unsequenced draws).
+        if 'UNSEQUENCED-DRAWS' in st['facts_msg'] or 'HAZARD-SCAN-FAILED' in st['facts_msg']:
+            res['broken'].append('source facts could not be extracted: ' + st['facts_msg'])
+        else:
+            res['facts_fallback'] = st['facts_msg']
     bad_mods = sorted(st['failed_modules'] & deps)
     if bad_mods:
         res['broken'].append('modules no longer compile: ' + ', '.join(bad_mods))
@@ -359,6 +378,23 @@ def run_driver(component, transcript_path, timeout=1800):
     if p.returncode == 0 and last.startswith('OK'):
         return True, int(last.split()[1]), ''
     return False, 0, last[:3000] or ('driver exit %d: %s' % (p.returncode, p.stderr.decode('utf8', 'replace')[-300:]))
+
+
+def run_driver_all(component, transcript_path, timeout=1800):
+    """Replay a transcript scenario by scenario. Returns (ok, line count, [divergence messages])."""
+    if not os.path.exists(DRIVER):
+        return False, 0, ['driver binary missing (Lean build failed)']
+    with open(transcript_path, 'rb') as f:
+        try:
+            p = subprocess.run([DRIVER, component, 'all'], stdin=f, capture_output=True, timeout=timeout)
+        except subprocess.TimeoutExpired:
+            return False, 0, ['driver timeout']
+    out = p.stdout.decode('utf8', 'replace').strip().splitlines()
+    last = out[-1] if out else ''
+    if p.returncode == 0 and last.startswith('OK'):
+        return True, int(last.split()[1]), []
+    msgs = [l[:3000] for l in out if l.startswith('DIVERGE ')]
+    return False, 0, msgs or [last[:3000] or ('driver exit %d: %s' % (p.returncode, p.stderr.decode('utf8', 'replace')[-300:]))]
 
 
 # ---------------------------------------------------------------------------------------------------
